@@ -158,6 +158,28 @@ def corpus_grammars():
         ("W", ("seq", [N("C"), ("q", N("D"))])),
         ("C", ("seq", [N("T"), c("c")])),
         ("D", ("alt", [("seq", [N("W"), c("d")]), ("seq", [c("x"), c("f")]), c("k"), c("l")]))]))
+    # the first rule re-entered from below, exactly once: Parse's own entry counts as a use, so it is never compiled in
+    # place (seed C02-start-rule-not-counted); the reference heads an alternative of a choice -switch rewrites, in a
+    # rule used twice - and the everyday form of the same shape, an expression grammar
+    out.append(dict(id="c%d" % len(out), nact=3, pinned=["(ab)", "xab)", "((ab)b)", "zbb)", "(a(bb))", "(ab"], rules=[
+        ("Start", ("seq", [c("("), N("Item"), N("Item"), c(")")])),
+        ("Item", ("alt", [c("a"), c("b"), N("Start")]))]))
+    dig = ("cls", False, False, [("r", 48, 57)])
+    out.append(dict(id="c%d" % len(out), nact=3, pinned=["1+(2-3)", "(1)", "((7))+1", "1+", "(1+2", "x", ")1"], rules=[
+        ("Expr", ("seq", [N("Term"), ("star", ("seq", [("alt", [c("+"), c("-")]), N("Term")]))])),
+        ("Term", ("alt", [("seq", [c("("), N("Expr"), c(")")]), ("push", ("plus", dig)), ("seq", [c("-"), N("Term")])]))]))
+    # a derivation nested deeper than any fixed indentation buffer: the printers indent by depth, one space per level
+    # (seed C05-print-indent-capped)
+    out.append(dict(id="c%d" % len(out), nact=3, pinned=["(" * 70 + "a" + ")" * 70, "(" * 130 + "\u00e9b" + ")" * 130, "((c))", "(" * 66 + "a" + ")" * 65], rules=[
+        ("Doc", ("seq", [N("G"), ("not", ("dot",))])),
+        ("G", ("alt", [("seq", [c("("), N("G"), c(")")]), N("Leaf")])),
+        ("Leaf", ("push", ("plus", ("alt", [cls, c("\u00e9")]))))]))
+    # line ends written \r\n: an error token that begins or ends on the \r or on the \n of a pair, or after a lone \r
+    # (seed C11-crlf-skips-offset-lookup)
+    out.append(dict(id="c%d" % len(out), nact=3, pinned=["abc\r\n123", "abc\r\nab\r\n9", "ab\r\n", "a\rb", "a\r\n\r\nb", "ab\nc\r\n!", "\r\n"], rules=[
+        ("Doc", ("seq", [N("Word"), ("star", ("seq", [N("EOL"), N("Word")])), ("not", ("dot",))])),
+        ("Word", ("plus", cls)),
+        ("EOL", ("alt", [("seq", [c("\r"), c("\n")]), c("\n"), c("\r")]))]))
     return out
 
 
